@@ -17,8 +17,8 @@ from wormhole.timing import DebugTiming  # noqa: E402
 
 CWD = "/w"
 # the sandbox: /w contains file "f", directory "d" (with file "d/f" and subdirectory "d/s"), file "f.tmp"
-FILES = {"/w/f", "/w/d/f", "/w/f.tmp"}
-DIRS = {"/", "/w", "/w/d", "/w/d/s"}
+FILES = {"/w/f", "/w/d/f", "/w/f.tmp", "/w/\u00e9", "/w/d/\u00e9"}     # (U+00E9: a precomposed name whose decomposed spelling e+U+0301 is a different file name)
+DIRS = {"/", "/w", "/w/d", "/w/d/s", "/w/\u00ea"}
 LINKS = {"/w/l": "/e/p"}      # a dangling symbolic link in the cwd (its target does not exist)
 
 
@@ -121,12 +121,16 @@ class SymPath:
 
     @staticmethod
     def dirname(p):
+        return SymPath.split(p)[0]
+
+    @staticmethod
+    def split(p):
         p = S(p)
         i = p.rfind("/") + 1
-        head = p[:i]
+        head, tail = p[:i], p[i:]
         if len(head) and not bool(head == "/" * len(head)):
             head = head.rstrip("/")
-        return head
+        return head, tail
 
 
 class FS:
@@ -301,8 +305,10 @@ class ReceivePaths(Job):
         except (core.Escape, core.Inconclusive, core._Abort, core.Counterexample):
             raise
         except Exception as e:
+            core.check_leak(e)
             check(False, "receive raised %s on an offered name" % type(e).__name__)
             return
+        self._offered = name
         self.oracle_sym(verdict, D, mut, out)
         eng().note("nt:%s" % verdict)
         return (verdict, len(mut))
@@ -313,10 +319,15 @@ class ReceivePaths(Job):
             check(D is not None, "mutation before a destination was decided")
         if D is not None and mut:
             # the announced destination is a proper child of the cwd / of the --output-file directory, or the --output-file target itself
+            offered = getattr(self, "_offered", None)
             if out is None:
                 check(single_child_of(D, CWD), "destination is not a child of the working directory named by the offer's basename")
+                if offered is not None:
+                    check(S(D) == SymPath.join(CWD, SymPath.basename(offered)), "destination is not named by the offer's basename")
             elif out == "d":
                 check(single_child_of(D, CWD + "/d"), "destination is not a child of the --output-file directory")
+                if offered is not None:
+                    check(S(D) == SymPath.join(CWD + "/d", SymPath.basename(offered)), "destination is not named by the offer's basename")
             else:
                 check(S(D) == CWD + "/" + out, "destination is not the --output-file target")
         for op, p in mut:
@@ -337,24 +348,13 @@ class ReceivePaths(Job):
     # concrete replay on the real os.path (the sandbox predicates stay: no real file system is touched)
     def replay(self, inp, label):
         name, member, answer = inp["name"], inp.get("member"), inp.get("answer", "y")
-        global SymPath
-        saved = (SymPath.join, SymPath.basename, SymPath.normpath, SymPath.abspath)
-        saved_real = SymPath.realpath
-        SymPath.realpath = staticmethod(lambda p: LINKS.get(posixpath.normpath(posixpath.join(CWD, p)), posixpath.normpath(posixpath.join(CWD, p))))
-        SymPath.join = staticmethod(lambda a, *p: posixpath.join(a, *p))
-        SymPath.basename = staticmethod(posixpath.basename)
-        SymPath.normpath = staticmethod(posixpath.normpath)
-        SymPath.abspath = staticmethod(lambda p: posixpath.normpath(posixpath.join(CWD, p)))
-        try:
+        with real_paths():
             try:
                 verdict, D, mut, out = self.run(name, member, answer)
             except Exception as e:
                 return "offer name %r%s: receive raised %r" % (name, (" member %r" % member) if member else "", e)
             D = None if D is None else "".join(D.c) if isinstance(D, SymStr) else D
             mut = [(op, "".join(p.c) if isinstance(p, SymStr) else p) for op, p in mut]
-        finally:
-            SymPath.join, SymPath.basename, SymPath.normpath, SymPath.abspath = [staticmethod(x) for x in saved]
-            SymPath.realpath = staticmethod(saved_real)
         desc = "offer name %r%s, output_file=%r, accept_file=%r, answer=%r -> %s, destination %r, mutations %r" % (
             name, (" zip member %r" % member) if member else "", out, self.accept, answer, verdict, D, mut)
         if mut and D is None:
@@ -365,6 +365,8 @@ class ReceivePaths(Job):
                 comp = D[len(parent) + 1:] if D.startswith(parent + "/") else None
                 if comp is None or comp in ("", ".", "..") or "/" in comp:
                     return "destination is not a proper child of %s: %s" % (parent, desc)
+                if comp != posixpath.basename(name):
+                    return "destination is not named by the offer's basename: " + desc
             elif D != CWD + "/" + out:
                 return "destination is not the --output-file target: " + desc
         for op, p in mut:
@@ -377,6 +379,60 @@ class ReceivePaths(Job):
         if out is None and D is not None and (D in FILES or D in DIRS) and (verdict != "rejected" or mut):
             return "existing destination not refused: " + desc
         return None
+
+
+class real_paths:
+    """run with the real posixpath functions instead of the symbolic model (concrete names only); the sandbox predicates stay"""
+    NAMES = ("join", "basename", "normpath", "abspath", "split", "dirname", "realpath")
+
+    def __enter__(self):
+        self.saved = {k: SymPath.__dict__[k] for k in self.NAMES}
+        SymPath.join = staticmethod(lambda a, *p: posixpath.join(a, *p))
+        SymPath.basename = staticmethod(posixpath.basename)
+        SymPath.normpath = staticmethod(posixpath.normpath)
+        SymPath.split = staticmethod(posixpath.split)
+        SymPath.dirname = staticmethod(posixpath.dirname)
+        SymPath.abspath = staticmethod(lambda p: posixpath.normpath(posixpath.join(CWD, p)))
+        SymPath.realpath = staticmethod(lambda p: LINKS.get(posixpath.normpath(posixpath.join(CWD, p)), posixpath.normpath(posixpath.join(CWD, p))))
+
+    def __exit__(self, *a):
+        for k, v in self.saved.items():
+            setattr(SymPath, k, v)
+        return False
+
+
+class NameSamples(ReceivePaths):
+    """CONCRETE offered names through the same code and oracle (supplementary to the symbolic jobs: Unicode normalisation, case folding and similar
+    library transformations are C code the engine cannot enter): decomposed spellings whose precomposed twin exists in the sandbox, the twins
+    themselves, compatibility characters, names differing in case from existing entries"""
+    SAMPLES = ["e\u0301", "\u00e9", "e\u0302", "\u00ea", "F", "D", "\uff46", "f ", "f.", "\u0065\u0301.txt", "x/e\u0301", "../e\u0301", "\ufb01"]
+
+    def __init__(self, mode, outsel, accept):
+        ReceivePaths.__init__(self, mode, 0, outsel, accept, 1 if mode == "directory" else 0)
+        self.name = "name_samples_%s_out-%s_%s" % (mode, outsel, "accept" if accept else "ask")
+        self.bounds = dict(offer=mode, output_file=outsel, accept_file=accept, offered_names=self.SAMPLES, note="concrete samples, not solver-decided")
+        self.must_reach = ("nt:done", "nt:rejected") if outsel == "none" else ("nt:done",)
+
+    def scenario(self):
+        i = eng().choose(len(self.SAMPLES), "sample")
+        name = self.SAMPLES[i]
+        member = "m" if self.mode == "directory" else None
+        answer = "y"
+        eng().inputs.update(name=name, answer=answer)
+        if member is not None:
+            eng().inputs["member"] = member
+        try:
+            with real_paths():
+                verdict, D, mut, out = self.run(name, member, answer)
+        except (core.Escape, core.Inconclusive, core._Abort, core.Counterexample):
+            raise
+        except Exception as e:
+            core.check_leak(e)
+            check(False, "receive raised %s on an offered name" % type(e).__name__)
+            return
+        self._offered = name
+        self.oracle_sym(verdict, D, mut, out)
+        eng().note("nt:%s" % verdict)
 
 
 class PathModel(Job):
@@ -393,8 +449,10 @@ class PathModel(Job):
         for _ in range(4000):
             s = "".join(rnd.choice(alpha) for _ in range(rnd.randrange(0, 7)))
             t = "".join(rnd.choice(alpha) for _ in range(rnd.randrange(0, 5)))
-            got = ("".join(SymPath.normpath(s).c), "".join(SymPath.basename(s).c), "".join(SymPath.join(s, t).c), "".join(SymPath.abspath(s).c))
-            exp = (posixpath.normpath(s), posixpath.basename(s), posixpath.join(s, t), posixpath.normpath(posixpath.join(CWD, s)))
+            sp = SymPath.split(s)
+            got = ("".join(SymPath.normpath(s).c), "".join(SymPath.basename(s).c), "".join(SymPath.join(s, t).c), "".join(SymPath.abspath(s).c),
+                   ("".join(sp[0].c), "".join(sp[1].c)), "".join(SymPath.dirname(s).c))
+            exp = (posixpath.normpath(s), posixpath.basename(s), posixpath.join(s, t), posixpath.normpath(posixpath.join(CWD, s)), posixpath.split(s), posixpath.dirname(s))
             if got != exp:
                 bad = (s, t, got, exp)
                 break
@@ -420,6 +478,9 @@ def jobs(tier):
                 J.append(ReceivePaths("directory", n, outsel, True, nm))
     for n in ((0, 2, 3, 4, 5) if thorough else (0, 2, 3)):
         J.append(ReceivePaths("directory", n, "none", False, 1))
+    for mode in ("file", "directory"):
+        for outsel in ("none", "dir"):
+            J.append(NameSamples(mode, outsel, True))
     return J
 
 
